@@ -60,7 +60,7 @@ def teardown(ctx):
 
 
 def cases(ctx):
-    n = 160 if ctx.tier == 'quick' else 3000
+    n = 160 if ctx.tier == 'quick' else 15000
     for i in range(n):
         yield {'kind': 'gen', 'i': i}
     yield {'kind': 'shipped'}
